@@ -295,7 +295,7 @@ impl Sim {
     fn to_attrs(app: &[RAttr]) -> StunAttributes {
         let mut a = StunAttributes::default();
         for x in app {
-            if let Ok(l) = crate::conv::to_lib(x) {
+            if let Ok(l) = crate::conv::to_lib_app(x) {
                 a.add(l);
             }
         }
